@@ -277,11 +277,15 @@ func (w *worldB) provisionKeyperSet(nd *bNode, kci, activation int64, members []
 		ks = append(ks, shdb.EncodeAddress(w.keys[i].Addr))
 	}
 	insert := func() {
+		if nd.ctx.Err() != nil {
+			// the process is down: its chain observer syncs after the restart
+			w.r.Eventf("%s is down: keyper set %d is synced after the restart", nd.name, kci)
+			return
+		}
 		w.task(func() {
-			err := obskeyper.New(nd.pool).InsertKeyperSet(nd.ctx, obskeyper.InsertKeyperSetParams{KeyperConfigIndex: kci, ActivationBlockNumber: activation, Keypers: ks, Threshold: int32(threshold)})
-			if err != nil {
-				w.r.Eventf("%s InsertKeyperSet: %v", nd.name, err)
-			}
+			// (a failure - the process died meanwhile - is repaired by the resync; nothing is
+			// logged from this goroutine: the event log belongs to the scheduler's goroutine)
+			_ = obskeyper.New(nd.pool).InsertKeyperSet(nd.ctx, obskeyper.InsertKeyperSetParams{KeyperConfigIndex: kci, ActivationBlockNumber: activation, Keypers: ks, Threshold: int32(threshold)})
 		})
 	}
 	// the chain observer runs inside the keyper process: after a restart it syncs the contract
